@@ -281,7 +281,7 @@ fn decorate(stmt: &H, layout: Layout, r: &mut Rng, used: &mut Vec<String>) -> St
 }
 
 fn part_layout(ctx: &Ctx, sink: &mut Sink) {
-    let n = ctx.budget(30_000, 400_000);
+    let n = ctx.budget(30_000, 6_000_000);
     let mut used_classes: std::collections::BTreeSet<String> = Default::default();
     for i in 0..n {
         if !ctx.mine(i) {
@@ -401,7 +401,7 @@ fn count_logic(h: &H) -> usize {
 }
 
 fn part_spellings(ctx: &Ctx, sink: &mut Sink) {
-    let n = ctx.budget(24_000, 300_000);
+    let n = ctx.budget(24_000, 4_000_000);
     for i in 0..n {
         if !ctx.mine(i) {
             continue;
@@ -501,7 +501,7 @@ fn name_candidates(seed: u64, extra: usize) -> Vec<String> {
 }
 
 fn part_names(ctx: &Ctx, sink: &mut Sink) {
-    let names = name_candidates(ctx.seed, ctx.budget(1500, 20_000) as usize);
+    let names = name_candidates(ctx.seed, ctx.budget(1500, 150_000) as usize);
     let seven = ROut::Ok(RVal::num(7.0));
     // (position class, template, expected)
     let templates: Vec<(&str, &str, ROut)> = vec![
@@ -639,7 +639,7 @@ fn subst_name(t: &str, name: &str) -> String {
 /// statements give when parsed alone (only statements that start with a letter are joined: a line that starts with an
 /// operator continues the line before it by design).
 fn part_separation(ctx: &Ctx, sink: &mut Sink) {
-    let n = ctx.budget(6_000, 100_000);
+    let n = ctx.budget(6_000, 2_000_000);
     for i in 0..n {
         if !ctx.mine(i) {
             continue;
